@@ -7,7 +7,6 @@ import (
 	"path/filepath"
 	"strings"
 	"testing"
-	"time"
 
 	"pgregory.net/rapid"
 
@@ -146,7 +145,8 @@ func writeToFile(c reuseCase, r reuseRun, path, revPath string) error {
 	fatalsBefore := fatal.Count()
 	fw := c.wcase(r, false)
 	rw := c.wcase(r, true)
-	deadline := time.After(waitLimit)
+	deadline, stopDeadline := patientAfter(waitLimit) // see patientAfter: a pause of the machine costs one slice
+	defer stopDeadline()
 
 	src := obiiter.MakeIBioSequence()
 	src.Add(1)
